@@ -100,7 +100,7 @@ func (c *inlCtx) tryStmt(s ast.Stmt, next ast.Stmt) ([]ast.Stmt, bool, bool) {
 				}
 				obj := c.info.Defs[id]
 				outside := 0
-				ast.Inspect(c.fd, func(n ast.Node) bool {
+				ast.Inspect(c.root, func(n ast.Node) bool {
 					if n == ast.Node(mode.consumer) || n == ast.Node(mode.consumer.Cond) || n == ast.Node(mode.consumer.Body) || (mode.consumer.Else != nil && n == ast.Node(mode.consumer.Else)) {
 						return false
 					}
